@@ -331,6 +331,26 @@ impl<'a> Gen<'a> {
 					let c = self.push(Kind::Null, None);
 					branches.insert(0, c);
 				}
+				// now and then a union whose branch indices need a second varint byte (zigzag: from 64 on) or sit at that
+				// edge: padded with small named types (any number of those may share a union)
+				if !cfg!(miri) && self.rng.chance(1, 25) {
+					let total = *self.rng.pick(&[63usize, 64, 65, 66, 70, 130]);
+					let mut k = 0;
+					while branches.len() < total {
+						let name = format!("pad.U{id}x{k}");
+						k += 1;
+						if !self.used_fullnames.insert(name.clone()) {
+							continue;
+						}
+						let c = if k % 2 == 0 {
+							self.push(Kind::Fixed { name, size: 1 + k % 3 }, None)
+						} else {
+							self.push(Kind::Enum { name, symbols: vec!["P".into(), "Q".into()] }, None)
+						};
+						self.finish(c, enclosing);
+						branches.push(c);
+					}
+				}
 				if self.rng.chance(1, 3) {
 					self.rng.shuffle(&mut branches);
 				}
